@@ -2,6 +2,7 @@ import FuModel.Find.Run
 import FuModel.Spec.ExprRef
 import FuModel.Spec.WalkRef
 import FuModel.Spec.PrintfRef
+import FuModel.Spec.RegexLang
 
 /-!
 # Reference run of find (used by the property predicates of C01, C02, C03, C07, C18)
@@ -141,6 +142,8 @@ def semRef (start : Bytes) (v : Visit Attr) (p : Prim) (s : ES) : Bool × ES :=
       | none => false), s)
   | .samefile dev ino => ((match recordSpecR v with | some (_, r) => r.dev == dev && r.ino == ino | none => false), s)
   | .lname l => ((match recordSpecR v with | some (t, _) => t == 'l' && (attrOf v).target == l | none => false), s)
+  | .regex ic re =>
+    (FuModel.Spec.RegexLang.member ic re (match String.fromUTF8? ⟨path.toArray⟩ with | some t => t.toList | none => []), s)
   | .printf _ raw =>
     (match FuModel.Spec.PrintfRef.specParse (raw.length + 1) raw with
      | some (cs, u) =>
